@@ -36,6 +36,7 @@ SHARD_TIMEOUT = {"quick": 900, "thorough": 7200}
 def plan(tier, seed):
     specs = [{"asys": list(s), "mode": m} for s in R.ALL_SYSTEMS for m in ("mp", "f64")]
     specs.append({"arrays": True})
+    specs += [{"mixed": True, "dim": d} for d in (2, 3, 4)]
     return specs
 
 
@@ -112,9 +113,165 @@ def run_arrays(tier, seed):
     return res
 
 
+def _rvs(v):
+    """canonical Cartesian values of every element of any vector (own readout of stored columns)"""
+    _, system, cols, _, n = B.stored_columns(v)
+    out = []
+    for i in range(n):
+        try:
+            out.append(B.to_rv(system, [c[i] for c in cols]))
+        except R.NotRepresentable:
+            out.append(None)
+    return out
+
+
+def run_mixed(spec, tier, seed):
+    """the same laws with operands in *different backends*: an array (NumPy, flat or jagged Awkward) on one side and
+    a single object vector, or an array of the other library, on the other side, stored in different systems"""
+    import awkward as ak
+
+    res = Result()
+    dim = spec["dim"]
+    mode = L.Mode("f64")
+    J = L.Judge(res, "C11", mode)
+    r = gen.rng(seed, "C11mixed", dim)
+    systems = R.SYSTEMS[dim]
+    n = 5
+    rounds = 6 if tier == "quick" else 60
+    for ri in range(rounds):
+        for ai, asys in enumerate(systems):
+            osys = systems[(ai + ri + 1) % len(systems)]
+            anytau = _is_tau(asys) or _is_tau(osys)
+
+            def genv(system):
+                if dim == 4:
+                    if anytau:
+                        return gen.vec4(r, core=True, causal="timelike", forward=True)
+                    return gen.vec4(r, core=True)
+                return gen.vec(r, dim, core=True)
+
+            try:
+                als = []
+                for _ in range(n):
+                    l = LVec(genv(asys)[0], asys, ri % 2 == 0)
+                    l.exact_coords()
+                    als.append(l)
+                bls = []
+                for _ in range(n):
+                    l = LVec(genv(osys)[0], osys, ai % 2 == 0)
+                    l.exact_coords()
+                    bls.append(l)
+                ol = LVec(genv(osys)[0], osys, ai % 2 == 1)
+                ol.exact_coords()
+            except R.NotRepresentable:
+                res.count("skip_operand_not_representable")
+                continue
+            rows = [l.f64()[0] for l in als]
+            brows = [l.f64()[0] for l in bls]
+            ea = [l.f64()[1] for l in als]
+            eb = [l.f64()[1] for l in bls]
+            eo = ol.f64()[1]
+            O = E_obj(ol)
+            unit = L.maxabs(eo, *ea, *eb)
+            mom_a = als[0].momentum and any(B.MOM_SPELL[nm] for nm in R.field_names(asys))
+            mom_b = bls[0].momentum and any(B.MOM_SPELL[nm] for nm in R.field_names(osys))
+            arrays = {
+                "numpy": B.mk_numpy_cls(asys, rows, als[0].momentum),
+                "awkward:flat": B.mk_awk(asys, rows, mom_a),
+                "awkward:jagged": B.mk_awk(asys, rows, mom_a, counts=[2, 0, n - 2]),
+            }
+            others = {
+                "numpy": B.mk_numpy_cls(osys, brows, bls[0].momentum),
+                "awkward:flat": B.mk_awk(osys, brows, mom_b),
+                "awkward:jagged": B.mk_awk(osys, brows, mom_b, counts=[2, 0, n - 2]),
+            }
+            k = float(gen.dyadic(r, 0.2, 4) * (1 if anytau else r.choice([1, -1])))
+            det0 = {"a": [l.describe() for l in als[:2]], "o": ol.describe(), "k": k}
+
+            def elems(law, cell, got, exp, scale, det):
+                """got: any vector; exp: list of RV (or a vector) — compared element by element"""
+                g = _rvs(got)
+                e = exp if isinstance(exp, list) else _rvs(exp)
+                if len(g) != len(e):
+                    res.violation(f"C11/mixed-backend-result-length law={law}", {"cell": cell, "got": len(g), "expected": len(e), **det})
+                    return
+                for i, (gi, ei) in enumerate(zip(g, e)):
+                    if gi is None or ei is None:
+                        res.count("skip_result_not_representable")
+                        continue
+                    J.vec(law, cell, gi, ei, scale, {**det, "element": i})
+
+            def nums(law, cell, got, exp, scale, det):
+                g = [float(x) for x in (ak.to_list(ak.flatten(got, axis=None)) if isinstance(got, ak.Array) else numpy.asarray(got).reshape(-1))]
+                e = exp if isinstance(exp, list) else [float(x) for x in (ak.to_list(ak.flatten(exp, axis=None)) if isinstance(exp, ak.Array) else numpy.asarray(exp).reshape(-1))]
+                if len(g) != len(e):
+                    res.violation(f"C11/mixed-backend-result-length law={law}", {"cell": cell, "got": len(g), "expected": len(e), **det})
+                    return
+                for i, (gi, ei) in enumerate(zip(g, e)):
+                    J.num(law, cell, mpf(gi), mpf(float(ei)), scale, {**det, "element": i})
+
+            for aname, A in arrays.items():
+                cell = f"{R.sysname(asys)}|{R.sysname(osys)}|{aname}xobject"
+                det = dict(det0, array=aname)
+                try:
+                    S = A.add(O)
+                    elems("mixed: a+o = o+a", cell, S, O.add(A), unit, det)
+                    elems("mixed: a+o is elementwise a[i]+o", cell, S, [R.op_add(x, eo) for x in ea], unit, det)
+                    elems("mixed: operator a+o is add", cell, A + O, S, unit, det)
+                    elems("mixed: operator o+a is add", cell, O + A, S, unit, det)
+                    nums("mixed: a.o = o.a", cell, A.dot(O), O.dot(A), unit**2, det)
+                    nums("mixed: a.o is elementwise", cell, A.dot(O), [R.op_dot(x, eo) for x in ea], unit**2, det)
+                    elems("mixed: k(a+o) = ka+ko", cell, S.scale(k), A.scale(k).add(O.scale(k)), unit * max(abs(k), 1), det)
+                    if not anytau:
+                        D = A.subtract(O)
+                        elems("mixed: (a-o)+o = a", cell, D.add(O), ea, unit, det)
+                        elems("mixed: a-o = -(o-a)", cell, D, O.subtract(A).scale(-1), unit, det)
+                        elems("mixed: a-o is elementwise a[i]-o", cell, D, [R.op_subtract(x, eo) for x in ea], unit, det)
+                        elems("mixed: operator a-o is subtract", cell, A - O, D, unit, det)
+                        elems("mixed: operator o-a is subtract", cell, O - A, O.subtract(A), unit, det)
+                    if dim == 3:
+                        X = A.cross(O)
+                        elems("mixed: axo = -(oxa)", cell, X, O.cross(A).scale(-1), unit**2, det)
+                        elems("mixed: axo is elementwise", cell, X, [R.op_cross(x, eo) for x in ea], unit**2, det)
+                except Exception as e:
+                    res.violation(f"C11/exception-in-mixed-backend-law array={aname.split(':')[0]}", {"cell": cell, "exc": repr(e)[:300], **det})
+                for bname, Bv in others.items():
+                    if aname.split(":")[0] == bname.split(":")[0] and aname != bname:
+                        continue  # flat x jagged of one library does not broadcast element to element
+                    if "jagged" in (aname + bname) and aname != bname:
+                        continue
+                    cell = f"{R.sysname(asys)}|{R.sysname(osys)}|{aname}x{bname}"
+                    det = dict(det0, array=aname, other=bname, b=[l.describe() for l in bls[:2]])
+                    try:
+                        S = A.add(Bv)
+                        elems("mixed: a+b = b+a", cell, S, Bv.add(A), unit, det)
+                        elems("mixed: a+b is elementwise", cell, S, [R.op_add(x, y) for x, y in zip(ea, eb)], unit, det)
+                        nums("mixed: a.b = b.a", cell, A.dot(Bv), Bv.dot(A), unit**2, det)
+                        if not anytau:
+                            D = A.subtract(Bv)
+                            elems("mixed: (a-b)+b = a", cell, D.add(Bv), ea, unit, det)
+                            elems("mixed: a-b = -(b-a)", cell, D, Bv.subtract(A).scale(-1), unit, det)
+                        if dim == 3:
+                            elems("mixed: axb = -(bxa)", cell, A.cross(Bv), Bv.cross(A).scale(-1), unit**2, det)
+                    except Exception as e:
+                        res.violation(f"C11/exception-in-mixed-backend-law pairing={aname.split(':')[0]}x{bname.split(':')[0]}",
+                                      {"cell": cell, "exc": repr(e)[:300], **det})
+            if ri == 0 and ai == 0:
+                res.sample({"mixed": True, "dim": dim, "a_system": R.sysname(asys), "o_system": R.sysname(osys), **det0,
+                            "laws_checked_so_far": res.evaluations})
+    return res
+
+
+def E_obj(l):
+    from ..engine import mat_obj
+    return mat_obj(l)
+
+
 def run_shard(spec, tier, seed):
     if spec.get("arrays"):
         return run_arrays(tier, seed)
+    if spec.get("mixed"):
+        return run_mixed(spec, tier, seed)
     res = Result()
     asys = tuple(spec["asys"])
     dim = len(asys) + 1
